@@ -192,6 +192,7 @@ class Conn:
         return self.remote.sock.closed
 
 
+TRANSPORT_COUNTS: dict = {}    # worlds built per transport in this process (reported by the checks' evidence)
 STEP_HOOKS: list = []          # callables(world, label) run at quiescent points (cross-property monitors)
 
 
@@ -230,9 +231,17 @@ class NodeWorld:
         Node = self.mods["node"].Node
         appmod = self.mods["application"]
         listen = cfg.get("listen", True)
+        # "transport": "sctp" - the node listens on SCTP and its peers are configured with ;transport=sctp (the fake
+        # pysctp of dv/simkernel.py): the SCTP arms of the dial, accept, write and close paths are the ones exercised
+        # Without an explicit choice the transport follows the case's scheduler seed (values 2, 3, 6, 7 -> SCTP), which every
+        # node-level generator already draws: the dimension costs no generator change and shrinks with the case.
+        self.transport = cfg.get("transport") or ("sctp" if (cfg.get("sched_seed", 0) >> 1) & 1 else "tcp")
+        sctp_t = self.transport == "sctp"
+        TRANSPORT_COUNTS[self.transport] = TRANSPORT_COUNTS.get(self.transport, 0) + 1
         node = Node(cfg.get("origin_host", NODE_HOST), cfg.get("realm", NODE_REALM),
                     ip_addresses=[NODE_IP] + [f"10.0.0.{i + 2}" for i in range(cfg.get("extra_listen", 0))] if listen else None,
-                    tcp_port=3868 if listen else None, vendor_ids=cfg.get("vendor_ids", [10415, 13019]))
+                    tcp_port=3868 if listen and not sctp_t else None, sctp_port=3868 if listen and sctp_t else None,
+                    vendor_ids=cfg.get("vendor_ids", [10415, 13019]))
         t = cfg.get("node_timers", {})
 
         def set_node_timers():
@@ -249,7 +258,7 @@ class NodeWorld:
             node.validate_received_request_avps = cfg["validate"]
         self.node = node
         for p in cfg.get("peers", []):
-            peer = node.add_peer(f"aaa://{p['name']}", p.get("realm"), ip_addresses=list(p.get("ip", [])),
+            peer = node.add_peer(f"aaa://{p['name']}" + (";transport=sctp" if sctp_t else ""), p.get("realm"), ip_addresses=list(p.get("ip", [])),
                                  is_persistent=p.get("persistent", False), is_default=p.get("default", False))
             for name in ("cea", "cer", "dwa", "idle"):
                 if name in p.get("timers", {}):
@@ -642,7 +651,7 @@ def monitor_tables(w: NodeWorld):
         if getattr(s, "closed", False):
             out.append(("closed-socket-tabled", f"socket of {ident} is closed but still in peer_sockets"))
     # sockets of removed connections must be closed
-    tabled_socks = set(map(id, node.peer_sockets.values())) | set(map(id, node.tcp_sockets))
+    tabled_socks = set(map(id, node.peer_sockets.values())) | set(map(id, list(node.tcp_sockets) + list(node.sctp_sockets)))
     for s in w.net.sockets:
         if s.closed or id(s) in tabled_socks or s.state == "listening":
             continue
